@@ -801,6 +801,9 @@ package log
 //@ func NewJSONEncoder
 //@   modifies nothing
 //@   ghost stk[result] = stk0
+//@   ghost encBuf[result] = buf
+//@   ghost tok[result] = tnil
+//@   ghost lastEnc = result
 //@   ensures[C07,C08:fresh-encoder] fresh(result) && result.buf == buf && result.last == 0
 
 //@ func (*JSONEncoder).Reset
@@ -917,12 +920,20 @@ package log
 //@   requires buf != nil
 //@   modifies nothing
 //@   ghost stk[result.jsonEncoder] = stk0
+//@   ghost stk[result] = stk0
+//@   ghost encBuf[result] = buf
+//@   ghost tok[result] = tnil
+//@   ghost lastEnc = result
 //@   ensures[C08:fresh-encoder] fresh(result) && result.buf == buf && result.separator == separator && !result.hasWritten && textOK(result) && result.jsonDepth == 0
 
 //@ func (*TextEncoder).AppendEncoderBegin
+//@   requires value_legal(stk[enc])
 //@   modifies nothing
+//@   ghost stk[enc] = stk_push(old(stk[enc]), 1)
 //@ func (*TextEncoder).AppendEncoderEnd
+//@   requires end_obj_legal(stk[enc])
 //@   modifies nothing
+//@   ghost stk[enc] = stk_pop(old(stk[enc]))
 
 //@ func (*TextEncoder).AppendObjectBegin
 //@   requires textOK(enc) && enc.jsonDepth < 127 && value_legal(stk[enc.jsonEncoder])
@@ -1017,83 +1028,113 @@ package log
 // 26 reflected value, 27/28 object begin/end, 29/30 array begin/end).  encState stands for whatever else
 // an implementation changes (its buffer, its bookkeeping).
 //@ ghost var tok map[ref]Trace
+//@ ghost var lastEnc ref  // the encoder created most recently
 //@ ghost var encState map[ref]int
+//@ ghost var encBuf map[ref]*bytes.Buffer  // the buffer an encoder writes to (append only)
 //@ spec fun encAt(enc Encoder) Stk = stk[ifval(enc)]
+// what the JSON encoder's methods establish (clauses C07:rep), visible through the interface
+//@ spec fun encRep(enc Encoder) bool = dyn(enc, *JSONEncoder) ==> json_rep(as(enc, *JSONEncoder).last, stk[ifval(enc)])
 //@ iface Encoder.AppendEncoderBegin
 //@   requires this != nil && stk_ok(stk[ifval(this)]) && value_legal(stk[ifval(this)])
-//@   modifies encState[ifval(this)]
+//@   modifies encState[ifval(this)], encBuf[ifval(this)].out, all(JSONEncoder.last), all(TextEncoder.jsonDepth), all(TextEncoder.hasWritten)
+//@   maintains encRep(this)
+//@   ensures bprefix(old(encBuf[ifval(this)].out), encBuf[ifval(this)].out) && tprefix(old(tok[ifval(this)]), tok[ifval(this)])
 //@   ghost stk[ifval(this)] = stk_push(old(stk[ifval(this)]), 1)
 //@   ghost tok[ifval(this)] = tsnoc(old(tok[ifval(this)]), 27, 0, 0, 0, "")
 
 //@ iface Encoder.AppendEncoderEnd
 //@   requires this != nil && stk_ok(stk[ifval(this)]) && end_obj_legal(stk[ifval(this)])
-//@   modifies encState[ifval(this)]
+//@   modifies encState[ifval(this)], encBuf[ifval(this)].out, all(JSONEncoder.last), all(TextEncoder.jsonDepth), all(TextEncoder.hasWritten)
+//@   maintains encRep(this)
+//@   ensures bprefix(old(encBuf[ifval(this)].out), encBuf[ifval(this)].out) && tprefix(old(tok[ifval(this)]), tok[ifval(this)])
 //@   ghost stk[ifval(this)] = stk_pop(old(stk[ifval(this)]))
 //@   ghost tok[ifval(this)] = tsnoc(old(tok[ifval(this)]), 28, 0, 0, 0, "")
 
 //@ iface Encoder.AppendObjectBegin
 //@   requires this != nil && stk_ok(stk[ifval(this)]) && value_legal(stk[ifval(this)])
-//@   modifies encState[ifval(this)]
+//@   modifies encState[ifval(this)], encBuf[ifval(this)].out, all(JSONEncoder.last), all(TextEncoder.jsonDepth), all(TextEncoder.hasWritten)
+//@   maintains encRep(this)
+//@   ensures bprefix(old(encBuf[ifval(this)].out), encBuf[ifval(this)].out) && tprefix(old(tok[ifval(this)]), tok[ifval(this)])
 //@   ghost stk[ifval(this)] = stk_push(old(stk[ifval(this)]), 1)
 //@   ghost tok[ifval(this)] = tsnoc(old(tok[ifval(this)]), 27, 0, 0, 0, "")
 
 //@ iface Encoder.AppendObjectEnd
 //@   requires this != nil && stk_ok(stk[ifval(this)]) && end_obj_legal(stk[ifval(this)])
-//@   modifies encState[ifval(this)]
+//@   modifies encState[ifval(this)], encBuf[ifval(this)].out, all(JSONEncoder.last), all(TextEncoder.jsonDepth), all(TextEncoder.hasWritten)
+//@   maintains encRep(this)
+//@   ensures bprefix(old(encBuf[ifval(this)].out), encBuf[ifval(this)].out) && tprefix(old(tok[ifval(this)]), tok[ifval(this)])
 //@   ghost stk[ifval(this)] = stk_pop(old(stk[ifval(this)]))
 //@   ghost tok[ifval(this)] = tsnoc(old(tok[ifval(this)]), 28, 0, 0, 0, "")
 
 //@ iface Encoder.AppendArrayBegin
 //@   requires this != nil && stk_ok(stk[ifval(this)]) && value_legal(stk[ifval(this)])
-//@   modifies encState[ifval(this)]
+//@   modifies encState[ifval(this)], encBuf[ifval(this)].out, all(JSONEncoder.last), all(TextEncoder.jsonDepth), all(TextEncoder.hasWritten)
+//@   maintains encRep(this)
+//@   ensures bprefix(old(encBuf[ifval(this)].out), encBuf[ifval(this)].out) && tprefix(old(tok[ifval(this)]), tok[ifval(this)])
 //@   ghost stk[ifval(this)] = stk_push(old(stk[ifval(this)]), 2)
 //@   ghost tok[ifval(this)] = tsnoc(old(tok[ifval(this)]), 29, 0, 0, 0, "")
 
 //@ iface Encoder.AppendArrayEnd
 //@   requires this != nil && stk_ok(stk[ifval(this)]) && end_arr_legal(stk[ifval(this)])
-//@   modifies encState[ifval(this)]
+//@   modifies encState[ifval(this)], encBuf[ifval(this)].out, all(JSONEncoder.last), all(TextEncoder.jsonDepth), all(TextEncoder.hasWritten)
+//@   maintains encRep(this)
+//@   ensures bprefix(old(encBuf[ifval(this)].out), encBuf[ifval(this)].out) && tprefix(old(tok[ifval(this)]), tok[ifval(this)])
 //@   ghost stk[ifval(this)] = stk_pop(old(stk[ifval(this)]))
 //@   ghost tok[ifval(this)] = tsnoc(old(tok[ifval(this)]), 30, 0, 0, 0, "")
 
 //@ iface Encoder.AppendKey
 //@   requires this != nil && stk_ok(stk[ifval(this)]) && key_legal(stk[ifval(this)])
-//@   modifies encState[ifval(this)]
+//@   modifies encState[ifval(this)], encBuf[ifval(this)].out, all(JSONEncoder.last), all(TextEncoder.jsonDepth), all(TextEncoder.hasWritten)
+//@   maintains encRep(this)
+//@   ensures bprefix(old(encBuf[ifval(this)].out), encBuf[ifval(this)].out) && tprefix(old(tok[ifval(this)]), tok[ifval(this)])
 //@   ghost stk[ifval(this)] = stk_key(old(stk[ifval(this)]))
 //@   ghost tok[ifval(this)] = tsnoc(old(tok[ifval(this)]), 20, 0, 0, 0, key)
 
 //@ iface Encoder.AppendBool
 //@   requires this != nil && stk_ok(stk[ifval(this)]) && value_legal(stk[ifval(this)])
-//@   modifies encState[ifval(this)]
+//@   modifies encState[ifval(this)], encBuf[ifval(this)].out, all(JSONEncoder.last), all(TextEncoder.jsonDepth), all(TextEncoder.hasWritten)
+//@   maintains encRep(this)
+//@   ensures bprefix(old(encBuf[ifval(this)].out), encBuf[ifval(this)].out) && tprefix(old(tok[ifval(this)]), tok[ifval(this)])
 //@   ghost stk[ifval(this)] = stk_child_done(old(stk[ifval(this)]))
 //@   ghost tok[ifval(this)] = tsnoc(old(tok[ifval(this)]), 21, 0, (v ? 1 : 0), 0, "")
 
 //@ iface Encoder.AppendInt64
 //@   requires this != nil && stk_ok(stk[ifval(this)]) && value_legal(stk[ifval(this)])
-//@   modifies encState[ifval(this)]
+//@   modifies encState[ifval(this)], encBuf[ifval(this)].out, all(JSONEncoder.last), all(TextEncoder.jsonDepth), all(TextEncoder.hasWritten)
+//@   maintains encRep(this)
+//@   ensures bprefix(old(encBuf[ifval(this)].out), encBuf[ifval(this)].out) && tprefix(old(tok[ifval(this)]), tok[ifval(this)])
 //@   ghost stk[ifval(this)] = stk_child_done(old(stk[ifval(this)]))
 //@   ghost tok[ifval(this)] = tsnoc(old(tok[ifval(this)]), 22, 0, v, 0, "")
 
 //@ iface Encoder.AppendUint64
 //@   requires this != nil && stk_ok(stk[ifval(this)]) && value_legal(stk[ifval(this)])
-//@   modifies encState[ifval(this)]
+//@   modifies encState[ifval(this)], encBuf[ifval(this)].out, all(JSONEncoder.last), all(TextEncoder.jsonDepth), all(TextEncoder.hasWritten)
+//@   maintains encRep(this)
+//@   ensures bprefix(old(encBuf[ifval(this)].out), encBuf[ifval(this)].out) && tprefix(old(tok[ifval(this)]), tok[ifval(this)])
 //@   ghost stk[ifval(this)] = stk_child_done(old(stk[ifval(this)]))
 //@   ghost tok[ifval(this)] = tsnoc(old(tok[ifval(this)]), 23, 0, v, 0, "")
 
 //@ iface Encoder.AppendFloat64
 //@   requires this != nil && stk_ok(stk[ifval(this)]) && value_legal(stk[ifval(this)])
-//@   modifies encState[ifval(this)]
+//@   modifies encState[ifval(this)], encBuf[ifval(this)].out, all(JSONEncoder.last), all(TextEncoder.jsonDepth), all(TextEncoder.hasWritten)
+//@   maintains encRep(this)
+//@   ensures bprefix(old(encBuf[ifval(this)].out), encBuf[ifval(this)].out) && tprefix(old(tok[ifval(this)]), tok[ifval(this)])
 //@   ghost stk[ifval(this)] = stk_child_done(old(stk[ifval(this)]))
 //@   ghost tok[ifval(this)] = tsnoc(old(tok[ifval(this)]), 24, 0, v, 0, "")
 
 //@ iface Encoder.AppendString
 //@   requires this != nil && stk_ok(stk[ifval(this)]) && value_legal(stk[ifval(this)])
-//@   modifies encState[ifval(this)]
+//@   modifies encState[ifval(this)], encBuf[ifval(this)].out, all(JSONEncoder.last), all(TextEncoder.jsonDepth), all(TextEncoder.hasWritten)
+//@   maintains encRep(this)
+//@   ensures bprefix(old(encBuf[ifval(this)].out), encBuf[ifval(this)].out) && tprefix(old(tok[ifval(this)]), tok[ifval(this)])
 //@   ghost stk[ifval(this)] = stk_child_done(old(stk[ifval(this)]))
 //@   ghost tok[ifval(this)] = tsnoc(old(tok[ifval(this)]), 25, 0, 0, 0, v)
 
 //@ iface Encoder.AppendReflect
 //@   requires this != nil && stk_ok(stk[ifval(this)]) && value_legal(stk[ifval(this)])
-//@   modifies encState[ifval(this)]
+//@   modifies encState[ifval(this)], encBuf[ifval(this)].out, all(JSONEncoder.last), all(TextEncoder.jsonDepth), all(TextEncoder.hasWritten)
+//@   maintains encRep(this)
+//@   ensures bprefix(old(encBuf[ifval(this)].out), encBuf[ifval(this)].out) && tprefix(old(tok[ifval(this)]), tok[ifval(this)])
 //@   ghost stk[ifval(this)] = stk_child_done(old(stk[ifval(this)]))
 //@   ghost tok[ifval(this)] = tsnoc(old(tok[ifval(this)]), 26, 0, ifval(v), iftag(v), "")
 
@@ -1102,8 +1143,10 @@ package log
 //@ spec fun sameFrame(s Stk, s0 Stk) bool = stail(s) == stail(s0) && fkind(shead(s)) == fkind(shead(s0)) && !fpend(shead(s)) && fcnt(shead(s)) >= fcnt(shead(s0))
 //@ iface ArrayValue.EncodeArray
 //@   requires enc != nil && inArray(stk[ifval(enc)])
-//@   modifies stk[ifval(enc)], tok[ifval(enc)], encState[ifval(enc)]
+//@   modifies stk[ifval(enc)], tok[ifval(enc)], encState[ifval(enc)], encBuf[ifval(enc)].out, all(JSONEncoder.last), all(TextEncoder.jsonDepth), all(TextEncoder.hasWritten)
+//@   maintains[C07:encoder-invariant-kept] encRep(enc)
 //@   ensures inArray(stk[ifval(enc)]) && sameFrame(stk[ifval(enc)], old(stk[ifval(enc)]))
+//@   ensures bprefix(old(encBuf[ifval(enc)].out), encBuf[ifval(enc)].out) && tprefix(old(tok[ifval(enc)]), tok[ifval(enc)])
 
 // the payload of a field agrees with its type tag (what the constructors establish)
 //@ spec fun fieldWF(f Field) bool = (f.Type == 4 ==> dyn(f.Any, *byte)) && (f.Type == 6 ==> implements(f.Any, ArrayValue)) && (f.Type == 7 ==> dyn(f.Any, []Field)) && (f.Type == 8 ==> dyn(f.Any, gomap[string]any))
@@ -1112,7 +1155,10 @@ package log
 //@ func (Field).Encode
 //@   requires enc != nil && key_legal(stk[ifval(enc)]) && stk_ok(stk[ifval(enc)]) && fieldWF(f)
 //@   requires f.Type == 7 ==> fieldsWF(as(f.Any, []Field))
-//@   modifies stk[ifval(enc)], tok[ifval(enc)], encState[ifval(enc)], elems(string)
+//@   modifies stk[ifval(enc)], tok[ifval(enc)], encState[ifval(enc)], encBuf[ifval(enc)].out, elems(string), all(JSONEncoder.last), all(TextEncoder.jsonDepth), all(TextEncoder.hasWritten)
+//@   maintains[C07:encoder-invariant-kept] encRep(enc)
+//@   ensures[C07,C08:append-only] bprefix(old(encBuf[ifval(enc)].out), encBuf[ifval(enc)].out)
+//@   ensures[C07:tokens-append-only] tprefix(old(tok[ifval(enc)]), tok[ifval(enc)])
 //@   ensures[C07,C08:member-position-kept] key_legal(stk[ifval(enc)]) && stk_ok(stk[ifval(enc)]) && sameFrame(stk[ifval(enc)], old(stk[ifval(enc)]))
 //@   ensures[C07,C08:exactly-one-member] 0 <= f.Type && f.Type <= 7 ==> stk[ifval(enc)] == stk_child_done(old(stk[ifval(enc)]))
 //@   ensures[C07:bool-token] f.Type == 0 ==> tok[ifval(enc)] == tsnoc(tsnoc(old(tok[ifval(enc)]), 20, 0, 0, 0, f.Key), 21, 0, (f.Num != 0 ? 1 : 0), 0, "")
@@ -1121,7 +1167,9 @@ package log
 //@   ensures[C07:float-token-bit-exact] f.Type == 3 ==> tok[ifval(enc)] == tsnoc(tsnoc(old(tok[ifval(enc)]), 20, 0, 0, 0, f.Key), 24, 0, f.Num, 0, "")
 //@   ensures[C07:string-token] f.Type == 4 ==> tok[ifval(enc)] == tsnoc(tsnoc(old(tok[ifval(enc)]), 20, 0, 0, 0, f.Key), 25, 0, 0, 0, str_of(as(f.Any, *byte), f.Num))
 //@   ensures[C07:reflect-token] f.Type == 5 ==> tok[ifval(enc)] == tsnoc(tsnoc(old(tok[ifval(enc)]), 20, 0, 0, 0, f.Key), 26, 0, ifval(f.Any), iftag(f.Any), "")
-//@   loop 1 invariant[C07:map-range] 0 <= $k
+//@   loop 1 invariant[C07:map-range] 0 <= $k && $k <= $n
+//@   loop 1 invariant[C07:map-append-only] bprefix(old(encBuf[ifval(enc)].out), encBuf[ifval(enc)].out) && tprefix(old(tok[ifval(enc)]), tok[ifval(enc)])
+//@   loop 1 invariant[C07:map-rep] encRep(enc)
 //@   loop 1 invariant[C07:map-members] key_legal(stk[ifval(enc)]) && stk_ok(stk[ifval(enc)]) && sameFrame(stk[ifval(enc)], old(stk[ifval(enc)]))
 
 // (recursive: the fields of a nested object are well-formed too)
@@ -1129,49 +1177,64 @@ package log
 
 //@ func EncodeFields
 //@   requires enc != nil && key_legal(stk[ifval(enc)]) && stk_ok(stk[ifval(enc)]) && fieldsWF(fields)
-//@   modifies stk[ifval(enc)], tok[ifval(enc)], encState[ifval(enc)], elems(string)
+//@   modifies stk[ifval(enc)], tok[ifval(enc)], encState[ifval(enc)], encBuf[ifval(enc)].out, elems(string), all(JSONEncoder.last), all(TextEncoder.jsonDepth), all(TextEncoder.hasWritten)
+//@   maintains[C07:encoder-invariant-kept] encRep(enc)
+//@   ensures[C07,C08:append-only] bprefix(old(encBuf[ifval(enc)].out), encBuf[ifval(enc)].out)
+//@   ensures[C07:tokens-append-only] tprefix(old(tok[ifval(enc)]), tok[ifval(enc)])
 //@   ensures[C07,C08:member-position-kept] key_legal(stk[ifval(enc)]) && stk_ok(stk[ifval(enc)]) && sameFrame(stk[ifval(enc)], old(stk[ifval(enc)]))
 //@   loop 1 invariant[C07:range] 0 <= $k && $k <= len(fields)
+//@   loop 1 invariant[C07:append-only] bprefix(old(encBuf[ifval(enc)].out), encBuf[ifval(enc)].out) && tprefix(old(tok[ifval(enc)]), tok[ifval(enc)])
+//@   loop 1 invariant[C07:rep] encRep(enc)
 //@   loop 1 invariant[C07:members] key_legal(stk[ifval(enc)]) && stk_ok(stk[ifval(enc)]) && sameFrame(stk[ifval(enc)], old(stk[ifval(enc)]))
 
 //@ func (bools).EncodeArray
 //@   requires enc != nil && inArray(stk[ifval(enc)])
-//@   modifies stk[ifval(enc)], tok[ifval(enc)], encState[ifval(enc)]
+//@   modifies stk[ifval(enc)], tok[ifval(enc)], encState[ifval(enc)], encBuf[ifval(enc)].out, all(JSONEncoder.last), all(TextEncoder.jsonDepth), all(TextEncoder.hasWritten)
+//@   maintains[C07:encoder-invariant-kept] encRep(enc)
 //@   ensures[C07,C08:elements-stay-in-the-array] inArray(stk[ifval(enc)]) && sameFrame(stk[ifval(enc)], old(stk[ifval(enc)]))
 //@   ensures[C07:one-element-per-item] fcnt(shead(stk[ifval(enc)])) == old(fcnt(shead(stk[ifval(enc)]))) + len(arr)
 //@   loop 1 invariant[C07:range] 0 <= $k && $k <= len(arr)
+//@   loop 1 invariant[C07:rep] encRep(enc)
 //@   loop 1 invariant[C07:in-array] inArray(stk[ifval(enc)]) && sameFrame(stk[ifval(enc)], old(stk[ifval(enc)])) && fcnt(shead(stk[ifval(enc)])) == old(fcnt(shead(stk[ifval(enc)]))) + $k
 
 //@ func (sliceOfInt).EncodeArray
 //@   requires enc != nil && inArray(stk[ifval(enc)])
-//@   modifies stk[ifval(enc)], tok[ifval(enc)], encState[ifval(enc)]
+//@   modifies stk[ifval(enc)], tok[ifval(enc)], encState[ifval(enc)], encBuf[ifval(enc)].out, all(JSONEncoder.last), all(TextEncoder.jsonDepth), all(TextEncoder.hasWritten)
+//@   maintains[C07:encoder-invariant-kept] encRep(enc)
 //@   ensures[C07,C08:elements-stay-in-the-array] inArray(stk[ifval(enc)]) && sameFrame(stk[ifval(enc)], old(stk[ifval(enc)]))
 //@   ensures[C07:one-element-per-item] fcnt(shead(stk[ifval(enc)])) == old(fcnt(shead(stk[ifval(enc)]))) + len(arr)
 //@   loop 1 invariant[C07:range] 0 <= $k && $k <= len(arr)
+//@   loop 1 invariant[C07:rep] encRep(enc)
 //@   loop 1 invariant[C07:in-array] inArray(stk[ifval(enc)]) && sameFrame(stk[ifval(enc)], old(stk[ifval(enc)])) && fcnt(shead(stk[ifval(enc)])) == old(fcnt(shead(stk[ifval(enc)]))) + $k
 
 //@ func (sliceOfUint).EncodeArray
 //@   requires enc != nil && inArray(stk[ifval(enc)])
-//@   modifies stk[ifval(enc)], tok[ifval(enc)], encState[ifval(enc)]
+//@   modifies stk[ifval(enc)], tok[ifval(enc)], encState[ifval(enc)], encBuf[ifval(enc)].out, all(JSONEncoder.last), all(TextEncoder.jsonDepth), all(TextEncoder.hasWritten)
+//@   maintains[C07:encoder-invariant-kept] encRep(enc)
 //@   ensures[C07,C08:elements-stay-in-the-array] inArray(stk[ifval(enc)]) && sameFrame(stk[ifval(enc)], old(stk[ifval(enc)]))
 //@   ensures[C07:one-element-per-item] fcnt(shead(stk[ifval(enc)])) == old(fcnt(shead(stk[ifval(enc)]))) + len(arr)
 //@   loop 1 invariant[C07:range] 0 <= $k && $k <= len(arr)
+//@   loop 1 invariant[C07:rep] encRep(enc)
 //@   loop 1 invariant[C07:in-array] inArray(stk[ifval(enc)]) && sameFrame(stk[ifval(enc)], old(stk[ifval(enc)])) && fcnt(shead(stk[ifval(enc)])) == old(fcnt(shead(stk[ifval(enc)]))) + $k
 
 //@ func (sliceOfFloat).EncodeArray
 //@   requires enc != nil && inArray(stk[ifval(enc)])
-//@   modifies stk[ifval(enc)], tok[ifval(enc)], encState[ifval(enc)]
+//@   modifies stk[ifval(enc)], tok[ifval(enc)], encState[ifval(enc)], encBuf[ifval(enc)].out, all(JSONEncoder.last), all(TextEncoder.jsonDepth), all(TextEncoder.hasWritten)
+//@   maintains[C07:encoder-invariant-kept] encRep(enc)
 //@   ensures[C07,C08:elements-stay-in-the-array] inArray(stk[ifval(enc)]) && sameFrame(stk[ifval(enc)], old(stk[ifval(enc)]))
 //@   ensures[C07:one-element-per-item] fcnt(shead(stk[ifval(enc)])) == old(fcnt(shead(stk[ifval(enc)]))) + len(arr)
 //@   loop 1 invariant[C07:range] 0 <= $k && $k <= len(arr)
+//@   loop 1 invariant[C07:rep] encRep(enc)
 //@   loop 1 invariant[C07:in-array] inArray(stk[ifval(enc)]) && sameFrame(stk[ifval(enc)], old(stk[ifval(enc)])) && fcnt(shead(stk[ifval(enc)])) == old(fcnt(shead(stk[ifval(enc)]))) + $k
 
 //@ func (sliceOfString).EncodeArray
 //@   requires enc != nil && inArray(stk[ifval(enc)])
-//@   modifies stk[ifval(enc)], tok[ifval(enc)], encState[ifval(enc)]
+//@   modifies stk[ifval(enc)], tok[ifval(enc)], encState[ifval(enc)], encBuf[ifval(enc)].out, all(JSONEncoder.last), all(TextEncoder.jsonDepth), all(TextEncoder.hasWritten)
+//@   maintains[C07:encoder-invariant-kept] encRep(enc)
 //@   ensures[C07,C08:elements-stay-in-the-array] inArray(stk[ifval(enc)]) && sameFrame(stk[ifval(enc)], old(stk[ifval(enc)]))
 //@   ensures[C07:one-element-per-item] fcnt(shead(stk[ifval(enc)])) == old(fcnt(shead(stk[ifval(enc)]))) + len(arr)
 //@   loop 1 invariant[C07:range] 0 <= $k && $k <= len(arr)
+//@   loop 1 invariant[C07:rep] encRep(enc)
 //@   loop 1 invariant[C07:in-array] inArray(stk[ifval(enc)]) && sameFrame(stk[ifval(enc)], old(stk[ifval(enc)])) && fcnt(shead(stk[ifval(enc)])) == old(fcnt(shead(stk[ifval(enc)]))) + $k
 
 
